@@ -40,7 +40,11 @@ func (n *MixedValueNode) AddConstraint(c constraint.Constraint) {
 	switch t := c.(type) {
 	case *constraint.TypeConstraint:
 		n.addTypeConstraint(t)
-		n.types = []string{t.Bytes().String()}
+		if t.Bytes().Unquote().String() != json.TypeMixed.String() {
+			// `type: "mixed"` written next to a list of types (@a | @b) says nothing
+			// about which types are listed.
+			n.types = []string{t.Bytes().String()}
+		}
 
 	case *constraint.Or:
 		n.addOrConstraint(t)
